@@ -161,6 +161,7 @@ def run(ctx):
     # the byte-level writer (tail repair + append) against the Lean storage model, incl. lines longer than the 64 KiB scan block
     from . import c12
     c12.storage_tie(ctx, ctx.seed + 300, 300 if ctx.quick else 4000, prop="C03")
+    c12.codec_tie(ctx, ctx.seed + 350, 300 if ctx.quick else 8000)
     for i in range(3 if ctx.quick else 30):
         c12.big_last_line(ctx, r.fork(), prop="C03")
     ctx.cov["rule"] = ("seeded pre-states; alternating (mutating command interrupted by SIGKILL before a random system call | its write cut short at a byte offset) and "
